@@ -146,6 +146,8 @@ G Spline<K, G>::end() const
 template<int K, LieGroup G>
 void Spline<K, G>::make_local()
 {
+  const G g0inv = inverse(m_g0);
+  for (auto & g : m_end_g) { g = composition(g0inv, g); }
   m_g0 = Identity<G>();
 }
 
